@@ -19,6 +19,7 @@ package url
 import (
 	"sort"
 	"strings"
+	"unicode/utf8"
 )
 
 type NameValuePair struct {
@@ -40,15 +41,26 @@ func (s *SearchParams) init(query string) {
 		}
 		kv := strings.SplitN(q, "=", 2)
 		name := strings.ReplaceAll(kv[0], "+", " ")
-		name = s.url.parser.DecodePercentEncoded(name)
+		name = s.toScalarValueString(s.url.parser.DecodePercentEncoded(name))
 		nvp := &NameValuePair{Name: name}
 		if len(kv) == 2 {
 			value := strings.ReplaceAll(kv[1], "+", " ")
-			value = s.url.parser.DecodePercentEncoded(value)
+			value = s.toScalarValueString(s.url.parser.DecodePercentEncoded(value))
 			nvp.Value = value
 		}
 		s.params = append(s.params, nvp)
 	}
+}
+
+// toScalarValueString reads bytes that are not valid UTF-8 as U+FFFD, one per byte, as the
+// serializer does. Names and values are then the strings that String() writes, so that sorting
+// and lookups agree before and after a round trip through the query. Parsers that accept invalid
+// code points keep the bytes.
+func (s *SearchParams) toScalarValueString(st string) string {
+	if s.url.parser.opts.acceptInvalidCodepoints || utf8.ValidString(st) {
+		return st
+	}
+	return string([]rune(st))
 }
 
 func (s *SearchParams) update() {
